@@ -6,10 +6,7 @@ cd "$(dirname "$0")"
 for v in 3.7.16 3.8.18 3.9.18 3.10.13 3.11.7 3.12.1 3.13.0; do
   /root/.pyenv/versions/$v/bin/python -c "import sys" || { echo "missing interpreter $v"; exit 1; }
 done
-java -cp /opt/veriftools/tla/tla2tools.jar tlc2.TLC -h >/dev/null 2>&1 || { echo "TLC missing"; exit 1; }
-for m in spec/*.tla; do
-  case "$m" in spec/Trace_*|spec/MC_*) continue;; esac
-done
+test -f /opt/veriftools/tla/tla2tools.jar && java -version >/dev/null 2>&1 || { echo "TLC/java missing"; exit 1; }
 /root/.pyenv/versions/3.11.7/bin/python -B -c "
 import sys; sys.path.insert(0, 'harness'); import common
 for v in common.SUPPORTED:
